@@ -112,6 +112,8 @@ def render(a, st=STYLE0):
     if k == 'range':
         return (sheet_prefix(a['sheet']) + cell_text(a['c1'], a['r1'], a['a1'], a['b1']) + ':'
                 + cell_text(a['c2'], a['r2'], a['a2'], a['b2']))
+    if k == 'rows':
+        return sheet_prefix(a['sheet']) + f"{a['r1']}:{a['r2']}"
     if k == 'name':
         return a['v']
     if k == 'call':
